@@ -2,6 +2,7 @@
    line written by the Go harness) to the canonical text of the model's
    observable.  Used identically by the extracted OCaml driver and by the
    in-Coq vm_compute evaluation. *)
+From Lungo.Model Require Import Stream.
 From Lungo.Model Require Import Compare.
 Open Scope string_scope.
 
@@ -25,6 +26,7 @@ Definition run_cmp (x : sexp) : option string :=
 
 Definition runners : list (sexp -> option string) :=
   [ run_cmp
+  ; run_stream
   ].
 
 Fixpoint first_some (rs : list (sexp -> option string)) (x : sexp) : string :=
